@@ -41,8 +41,14 @@ class Loader:
             inst = self._next_inst()
             while inst is not None:
                 if inst.op_code is OpCode.ROUTINE:
+                    # Jump offsets around a definition nested in an if or
+                    # repeat still count its instructions; leave fillers.
+                    before = len(self._routine_segment)
                     rtn = self._load_routine(inst)
                     self._routines[rtn.name] = rtn
+                    moved = len(self._routine_segment) - before
+                    self._main_segment.extend(
+                        Instruction(OpCode.NOP) for _ in range(moved))
                 else:
                     self._main_segment.append(inst)
                 inst = self._next_inst()
